@@ -138,7 +138,22 @@ def handle (args : List String) (obs : String) : Option Reply := do
     match r.err with
     | some e => s!"reject:{e}"
     | none => if isFinal r.s then "R1 O1 D1 V1 E1" else "reject:the run ended in a state that is not final (all broadcasts done, pool dropped, every worker exited)"
+  -- C06, on the events alone: once a worker has decremented the counter the caller may resume and the
+  -- stack-resident task block may be gone; the only thing it may still do for this task is unpark the
+  -- caller through a handle it cloned *before* the decrement
+  let tids := (evs.map (·.1)).eraseDups
+  let touchesAfter := tids.any fun t =>
+    let mine := (evs.filter (·.1 = t)).map (·.2)
+    (mine.foldl (fun (st : Bool × Bool × Bool) e =>
+      let (cloned, dec, bad) := st
+      match e with
+      | .recv => (false, false, bad)
+      | .clone => (true, dec, bad)
+      | .fsub _ _ => (cloned, true, bad)
+      | .unpark => (cloned, dec, bad || (dec && !cloned))
+      | _ => st) (false, false, false)).2.2
   let v : List String :=
+    (if touchesAfter then ["[C06] a worker unparked the caller after its decrement through a handle it had not cloned before: it read the broadcast's shared state when the caller may already have returned"] else []) ++
     (if (flags.splitOn " ").contains "R0" then ["[C06] per-index results are wrong (order, or empty entries not exactly for the panicking calls)"] else []) ++
     (if (flags.splitOn " ").contains "O0" then ["[C06] the task was not called exactly once for each index"] else []) ++
     (if (flags.splitOn " ").contains "D0" then ["[C06] index 0 did not run on the caller or the other indices not on distinct pooled threads"] else []) ++
